@@ -433,7 +433,7 @@ class Prop(fw.PropBase):
     def cli_libs(self):
         g = Gen(self.rng)
         libs = []
-        for k in range(1 if self.tier == 'quick' else 6):
+        for k in range(2 if self.tier == 'quick' else 6):
             klass = 'nla' if k % 2 == 0 else 'chic'
             ref = g.ref().upper()
             mols = []
